@@ -292,8 +292,8 @@ package saml2
 
 //@ func xmlUnmarshalElement(el *etree.Element, obj any) (err error)
 //@   requires el != nil && !(obj is *etree.Element) && !(obj is *etree.Document)
-//@   requires [C01, C04, C08] zero.response: obj is *types.Response ==> *obj.(*types.Response) == types.Response{}
-//@   requires [C01, C04, C08] zero.assertion: obj is *types.Assertion ==> *obj.(*types.Assertion) == types.Assertion{}
+//@   requires [C01, C03, C04, C08] zero.response: obj is *types.Response ==> *obj.(*types.Response) == types.Response{}
+//@   requires [C01, C03, C04, C08] zero.assertion: obj is *types.Assertion ==> *obj.(*types.Assertion) == types.Assertion{}
 //@   requires [C10, C04] zero.logoutresponse: obj is *types.LogoutResponse ==> *obj.(*types.LogoutResponse) == types.LogoutResponse{}
 //@   requires [C10, C04] zero.logoutrequest: obj is *LogoutRequest ==> *obj.(*LogoutRequest) == LogoutRequest{}
 //@   requires [C07] zero.encrypted: obj is *types.EncryptedAssertion ==> *obj.(*types.EncryptedAssertion) == types.EncryptedAssertion{}
@@ -366,6 +366,26 @@ package saml2
 //@   return x509ok(der) && x509NotBefore(der) <= now(sp.Clock) && now(sp.Clock) <= x509NotAfter(der)
 //@ }
 
+// The key-store setters establish the part of the configuration invariant SPValid that concerns them (a stored
+// setter key store has a signer) and store the key where the getters, decryption and signing look for it.
+//@ func (sp *SAMLServiceProvider) SetSPKeyStore(ks *KeyStore) (err error)
+//@   requires sp != nil && (sp.spKeyStoreOverride != nil ==> sp.spKeyStoreOverride.Signer != nil)
+//@   safety [C09]
+//@   assigns sp.spKeyStoreOverride
+//@   ensures [C11, C19] accepted: err == nil <==> (ks == nil || ks.Signer != nil)
+//@   ensures [C11, C19] stored: err == nil ==> sp.spKeyStoreOverride == ks
+//@   ensures [C11, C19] refused: err != nil ==> sp.spKeyStoreOverride == old(sp.spKeyStoreOverride)
+//@   ensures [C09, C11] invariant: sp.spKeyStoreOverride != nil ==> sp.spKeyStoreOverride.Signer != nil
+
+//@ func (sp *SAMLServiceProvider) SetSPSigningKeyStore(ks *KeyStore) (err error)
+//@   requires sp != nil && (sp.spSigningKeyStoreOverride != nil ==> sp.spSigningKeyStoreOverride.Signer != nil)
+//@   safety [C09]
+//@   assigns sp.spSigningKeyStoreOverride
+//@   ensures [C13, C19] accepted: err == nil <==> (ks == nil || ks.Signer != nil)
+//@   ensures [C13, C19] stored: err == nil ==> sp.spSigningKeyStoreOverride == ks
+//@   ensures [C13, C19] refused: err != nil ==> sp.spSigningKeyStoreOverride == old(sp.spSigningKeyStoreOverride)
+//@   ensures [C09, C13] invariant: sp.spSigningKeyStoreOverride != nil ==> sp.spSigningKeyStoreOverride.Signer != nil
+
 //@ func (sp *SAMLServiceProvider) getDecryptCert() (cert *tls.Certificate, err error)
 //@   requires SPValid(sp)
 //@   safety [C09]
@@ -392,6 +412,7 @@ package saml2
 //@ func (sp *SAMLServiceProvider) decryptAssertions(el *etree.Element) (err error)
 //@   requires SPValid(sp) && el != nil && el.parent != nil
 //@   safety [C09]
+//@   frame [C17]
 //@   assigns all etree.Element.Child, all etree.Element.parent, all etree.Element.index, all etree.Document.$root
 //@   iter 0
 //@     invariant [C09] certok: decryptCert != nil ==> KeyOK(decryptCert.PrivateKey)
